@@ -26,7 +26,7 @@ class NeighboursAndRandom(Bounded):
     """stand-ins for the two functions outside the subset (cKDTree query, random generation)"""
     name = "neighbor-distances-and-from_random"
     bound = ("get_neighbor_distances == row minima of the Euclidean matrix on all emulsions of <= 4 droplets on a 4^d half-integer "
-             "lattice with radii in {1/2, 1, 3/2} for d = 1 (thorough: d <= 2) plus 60/1000 random ones; from_random inside bounds / "
+             "lattice (coincident centres included) with radii in {1/2, 1, 3/2} for d = 1 (thorough: d <= 2) plus 60/1000 random ones; from_random inside bounds / "
              "radius range on 30/300 seeded calls (bounds and grids, with and without overlap removal)")
 
     def run(self, tier, seed):
@@ -70,7 +70,7 @@ class NeighboursAndRandom(Bounded):
         for d in dims:
             pts = list(itertools.product(lat, repeat=d))
             for n in range(0, 4 if d == 1 or tier == "quick" else 3):
-                for pos in itertools.combinations(pts, n):
+                for pos in itertools.combinations_with_replacement(pts, n):     # coincident centres included (k-d tree ties at distance 0)
                     for rad in itertools.product(rads, repeat=n):
                         em = droplets.Emulsion([droplets.SphericalDroplet(p, r) for p, r in zip(pos, rad)])
                         check_nn(em, ("lat", d, pos, rad))
